@@ -306,6 +306,260 @@ REq(a, b) ==
          [] OTHER -> VEq(a, b)
 
 (***************************************************************************)
+(* EVOLUTION STEPS.  Each operator yields the schemas obtainable from the  *)
+(* node s by one step of its kind, as [d |-> [kind, safe], s |-> s'].      *)
+(* safe = TRUE exactly for the steps Appendix B.6 calls always safe:       *)
+(* numeric promotion, adding a reader field with a default, removing a     *)
+(* field, reordering fields, adding a reader union branch, adding a reader *)
+(* enum symbol.                                                            *)
+(***************************************************************************)
+St(kind, safe, s) == [d |-> [kind |-> kind, safe |-> safe], s |-> s]
+PrimS(k) == [k |-> k]
+FldD(n, ty, al, hd, dj) == [name |-> n, type |-> ty, aliases |-> al, hasdef |-> hd, defjson |-> dj]
+UnionOf(bs) == [k |-> "union", branches |-> bs]
+
+UClass(s) == CASE s.k \in IntKinds -> "int" [] s.k \in LongKinds -> "long"
+               [] s.k \in {"record", "enum", "fixed", "ref"} -> s.name
+               [] OTHER -> s.k
+
+DropAt(q, i) == [j \in 1..(Len(q) - 1) |-> IF j < i THEN q[j] ELSE q[j + 1]]
+InsertFront(q, x) == <<x>> \o q
+Rev(q) == [j \in 1..Len(q) |-> q[Len(q) + 1 - j]]
+Rotate(q) == [j \in 1..Len(q) |-> IF j = Len(q) THEN q[1] ELSE q[j + 1]]
+
+(* ---- pools used by the adding steps ---- *)
+PoolFixed == [k |-> "fixed", name |-> "ns.FD", size |-> 2]
+PoolEnum  == [k |-> "enum", name |-> "ns.ED", symbols |-> <<"A", "B", "C">>, hasdef |-> FALSE, def |-> ""]
+PoolRec   == [k |-> "record", name |-> "ns.RD", fields |->
+                <<FldD("p", PrimS("int"), <<>>, FALSE, JNull),
+                  FldD("q", PrimS("string"), <<>>, TRUE, JStr("dq", <<100, 113>>))>>]
+(* a record every record value "fits" structurally: all fields defaulted *)
+PoolAnyRec == [k |-> "record", name |-> "ns.Z", fields |-> <<FldD("z", PrimS("int"), <<>>, TRUE, JInt(0))>>]
+
+(* "defaults of every type": [tag, ty, dj, safe] *)
+DefaultPool == <<
+  [tag |-> "null",    ty |-> PrimS("null"),    dj |-> JNull, safe |-> TRUE],
+  [tag |-> "boolean", ty |-> PrimS("boolean"), dj |-> JBool(TRUE), safe |-> TRUE],
+  [tag |-> "int",     ty |-> PrimS("int"),     dj |-> JInt(-7), safe |-> TRUE],
+  [tag |-> "long",    ty |-> PrimS("long"),    dj |-> JInt(1234567), safe |-> TRUE],
+  [tag |-> "float",   ty |-> PrimS("float"),   dj |-> JInt(16777217), safe |-> TRUE],
+  [tag |-> "double",  ty |-> PrimS("double"),  dj |-> JInt(-2), safe |-> TRUE],
+  [tag |-> "bytes",   ty |-> PrimS("bytes"),   dj |-> JStr("AB", <<65, 66>>), safe |-> TRUE],
+  [tag |-> "byteshi", ty |-> PrimS("bytes"),   dj |-> JStr("~", <<195, 191, 1>>), safe |-> TRUE],        \* "ÿ\u0001"
+  [tag |-> "string",  ty |-> PrimS("string"),  dj |-> JStr("~", <<120, 226, 130, 172>>), safe |-> TRUE], \* "x" EURO SIGN
+  [tag |-> "date",    ty |-> PrimS("date"),    dj |-> JInt(19000), safe |-> TRUE],
+  [tag |-> "fixed",   ty |-> PoolFixed,       dj |-> JStr("AB", <<65, 66>>), safe |-> TRUE],
+  [tag |-> "fixedhi", ty |-> PoolFixed,       dj |-> JStr("~", <<195, 191, 65>>), safe |-> TRUE],       \* "ÿA"
+  [tag |-> "enum",    ty |-> PoolEnum,        dj |-> JStr("B", <<66>>), safe |-> TRUE],
+  [tag |-> "array",   ty |-> [k |-> "array", items |-> PrimS("int")], dj |-> JArr(<<JInt(1), JInt(2)>>), safe |-> TRUE],
+  [tag |-> "map",     ty |-> [k |-> "map", values |-> PrimS("long")], dj |-> JObj(<< <<"k", JInt(5)>> >>), safe |-> TRUE],
+  [tag |-> "record",  ty |-> PoolRec,         dj |-> JObj(<< <<"p", JInt(1)>> >>), safe |-> TRUE],
+  [tag |-> "unull",   ty |-> UnionOf(<<PrimS("null"), PrimS("int")>>), dj |-> JNull, safe |-> TRUE],
+  [tag |-> "uint",    ty |-> UnionOf(<<PrimS("int"), PrimS("null")>>), dj |-> JInt(5), safe |-> TRUE],
+  \* a default for the SECOND branch: valid from 1.12 on only (grey zone), so not claimed safe
+  [tag |-> "usecond", ty |-> UnionOf(<<PrimS("null"), PrimS("int")>>), dj |-> JInt(5), safe |-> FALSE],
+  [tag |-> "usecond2", ty |-> UnionOf(<<PrimS("string"), PrimS("int")>>), dj |-> JInt(5), safe |-> FALSE] >>
+
+BranchPool == <<PrimS("null"), PrimS("long"), PrimS("string"), PoolEnum, PoolAnyRec>>
+
+(* ---- leaves ---- *)
+PromoteTargets(k) ==
+  CASE k \in IntKinds -> {"long", "float", "double"}
+    [] k \in LongKinds -> {"float", "double"}
+    [] k = "float" -> {"double"}
+    [] OTHER -> {}
+StepPromote(s) == {St("Promote", TRUE, PrimS(t)) : t \in PromoteTargets(s.k)}
+StepPromoteStrBytes(s) ==
+  IF s.k = "string" THEN {St("PromoteStrBytes", FALSE, PrimS("bytes"))}
+  ELSE IF s.k = "bytes" THEN {St("PromoteStrBytes", FALSE, PrimS("string"))} ELSE {}
+StepAnnotate(s) ==
+  IF s.k = "int" THEN {St("AnnotateLogical", FALSE, PrimS("date"))}
+  ELSE IF s.k = "long" THEN {St("AnnotateLogical", FALSE, PrimS("timestamp-millis"))}
+  ELSE IF s.k = "timestamp-millis" THEN {St("AnnotateLogical", FALSE, PrimS("timestamp-micros"))} ELSE {}
+StepDemote(s) ==
+  CASE s.k = "long" -> {St("Demote", FALSE, PrimS("int"))}
+    [] s.k = "double" -> {St("Demote", FALSE, PrimS("float")), St("Demote", FALSE, PrimS("long"))}
+    [] s.k = "float" -> {St("Demote", FALSE, PrimS("int"))}
+    [] OTHER -> {}
+StepChangeType(s) ==
+  CASE s.k = "string" -> {St("ChangeType", FALSE, [k |-> "fixed", name |-> "ns.FX", size |-> 3]),
+                          St("ChangeType", FALSE, PrimS("int"))}
+    [] s.k = "bytes" -> {St("ChangeType", FALSE, [k |-> "fixed", name |-> "ns.FX", size |-> 4])}
+    [] s.k = "fixed" -> {St("ChangeType", FALSE, PrimS("string")), St("ChangeType", FALSE, PrimS("bytes"))}
+    [] s.k = "int" -> {St("ChangeType", FALSE, PrimS("string"))}
+    [] OTHER -> {}
+StepChangeFixedSize(s) == IF s.k = "fixed" THEN {St("ChangeFixedSize", FALSE, [s EXCEPT !.size = @ + 1])} ELSE {}
+
+(* ---- enums ---- *)
+EnumWith(s, syms, hd, d) == [k |-> "enum", name |-> s.name, symbols |-> syms, hasdef |-> hd, def |-> d]
+EDefOf(s) == IF EHasDef(s) THEN s.def ELSE ""
+StepAddSymbol(s) ==
+  IF s.k # "enum" \/ "Z" \in SeqRange(s.symbols) THEN {}
+  ELSE {St("AddSymbol", TRUE, EnumWith(s, Append(s.symbols, "Z"), EHasDef(s), EDefOf(s))),
+        St("AddSymbol", TRUE, EnumWith(s, InsertFront(s.symbols, "Z"), EHasDef(s), EDefOf(s)))}
+StepRemoveSymbol(s) ==
+  IF s.k # "enum" \/ Len(s.symbols) < 2 THEN {}
+  ELSE LET keep == {i \in {1, Len(s.symbols)} : ~(EHasDef(s) /\ s.def = s.symbols[i])} IN
+       {St("RemoveSymbol", FALSE, EnumWith(s, DropAt(s.symbols, i), EHasDef(s), EDefOf(s))) : i \in keep}
+       \cup {St("RemoveSymbolWithDefault", FALSE,
+                LET q == DropAt(s.symbols, 1) IN EnumWith(s, q, TRUE, q[Len(q)]))}
+StepReorderSymbols(s) ==
+  IF s.k # "enum" \/ Len(s.symbols) < 2 THEN {}
+  ELSE {St("ReorderSymbols", FALSE, EnumWith(s, Rev(s.symbols), EHasDef(s), EDefOf(s)))}
+StepSetEnumDefault(s) ==
+  IF s.k # "enum" \/ EHasDef(s) THEN {} ELSE {St("SetEnumDefault", FALSE, EnumWith(s, s.symbols, TRUE, s.symbols[1]))}
+
+(* ---- unions ---- *)
+StepAddBranch(s) ==
+  IF s.k # "union" THEN {}
+  ELSE LET used == {UClass(s.branches[i]) : i \in 1..Len(s.branches)}
+           cand == {i \in 1..Len(BranchPool) : UClass(BranchPool[i]) \notin used} IN
+       {St("AddBranch", TRUE, UnionOf(Append(s.branches, BranchPool[i]))) : i \in cand}
+       \* A branch put in FRONT of the others is not claimed safe (both found by TLC): under the first-match
+       \* reading a leading string branch captures written bytes that need not be UTF-8
+       \* ([bytes,null] -> [string,bytes,null]), and under the first-branch reading of union defaults the
+       \* default of a union-typed field no longer belongs to the (new) first branch.
+       \cup {St("AddBranch", FALSE, UnionOf(InsertFront(s.branches, BranchPool[i]))) : i \in cand}
+StepRemoveBranch(s) ==
+  IF s.k # "union" \/ Len(s.branches) < 2 THEN {}
+  ELSE {St("RemoveBranch", FALSE, UnionOf(DropAt(s.branches, i))) : i \in 1..Len(s.branches)}
+StepReorderBranches(s) ==
+  IF s.k # "union" \/ Len(s.branches) < 2 THEN {} ELSE {St("ReorderBranches", FALSE, UnionOf(Rev(s.branches)))}
+StepUnwrap(s) ==
+  IF s.k # "union" THEN {} ELSE {St("UnwrapFromUnion", FALSE, s.branches[i]) : i \in 1..Len(s.branches)}
+StepWrap(s, inUnion) ==
+  IF s.k = "union" \/ inUnion THEN {}
+  ELSE {St("WrapInUnion", FALSE, UnionOf(<<s, PrimS("null")>>)) : x \in IF s.k = "null" THEN {} ELSE {1}}
+       \cup {St("WrapInUnion", FALSE, UnionOf(<<PrimS("null"), s>>)) : x \in IF s.k = "null" THEN {} ELSE {1}}
+       \cup {St("WrapInUnion", FALSE, UnionOf(<<s>>))}
+
+(* ---- arrays / maps: a different element type altogether (promotions of the element type arise by descent) ---- *)
+OtherType(t) == IF t.k = "string" THEN PrimS("long") ELSE PrimS("string")
+StepChangeItems(s) == IF s.k = "array" THEN {St("ChangeItems", FALSE, [s EXCEPT !.items = OtherType(@)])} ELSE {}
+StepChangeValues(s) == IF s.k = "map" THEN {St("ChangeValues", FALSE, [s EXCEPT !.values = OtherType(@)])} ELSE {}
+
+(* ---- records ---- *)
+FieldNames(s) == {s.fields[i].name : i \in 1..Len(s.fields)}
+FreshName(s) == IF "n1" \notin FieldNames(s) THEN "n1" ELSE IF "n2" \notin FieldNames(s) THEN "n2" ELSE "n3"
+FullFld(f) == FldD(f.name, f.type, FAliases(f), FHasDef(f), IF FHasDef(f) THEN f.defjson ELSE JNull)
+WithFields(s, fs) == [k |-> "record", name |-> s.name, fields |-> fs]
+
+StepAddFieldWithDefault(s, pool) ==
+  IF s.k # "record" \/ "n3" \in FieldNames(s) THEN {}
+  ELSE {St("AddFieldWithDefault:" \o DefaultPool[i].tag, DefaultPool[i].safe,
+           WithFields(s, Append(s.fields, FldD(FreshName(s), DefaultPool[i].ty, <<>>, TRUE, DefaultPool[i].dj)))) : i \in pool}
+       \cup {St("AddFieldWithDefault:front", TRUE,
+                WithFields(s, InsertFront(s.fields, FldD(FreshName(s), PrimS("long"), <<>>, TRUE, JInt(1234567)))))}
+StepAddFieldNoDefault(s) ==
+  IF s.k # "record" \/ "n3" \in FieldNames(s) THEN {}
+  ELSE {St("AddFieldNoDefault", FALSE, WithFields(s, Append(s.fields, FldD(FreshName(s), PrimS("int"), <<>>, FALSE, JNull))))}
+StepRemoveField(s) ==
+  IF s.k # "record" THEN {} ELSE {St("RemoveField", TRUE, WithFields(s, DropAt(s.fields, i))) : i \in 1..Len(s.fields)}
+StepReorder(s) ==
+  IF s.k # "record" \/ Len(s.fields) < 2 THEN {}
+  ELSE {St("Reorder", TRUE, WithFields(s, Rev(s.fields)))}
+       \cup (IF Len(s.fields) >= 3 THEN {St("Reorder", TRUE, WithFields(s, Rotate(s.fields)))} ELSE {})
+Renamed(f) == "r_" \o f.name
+StepRenameWithAlias(s) ==
+  IF s.k # "record" THEN {}
+  ELSE UNION {{St("RenameWithAlias", FALSE,
+                  WithFields(s, [s.fields EXCEPT ![i] = FldD(Renamed(@), @.type, al, FHasDef(@), FullFld(@).defjson)]))
+               : al \in {<<s.fields[i].name>>, <<"zz", s.fields[i].name>>}}
+              : i \in {j \in 1..Len(s.fields) : Renamed(s.fields[j]) \notin FieldNames(s) /\ FAliases(s.fields[j]) = <<>>}}
+StepRenameWithoutAlias(s) ==
+  IF s.k # "record" THEN {}
+  ELSE {St("RenameWithoutAlias", FALSE,
+           WithFields(s, [s.fields EXCEPT ![i] = FldD(Renamed(@), @.type, <<>>, FHasDef(@), FullFld(@).defjson)]))
+        : i \in {j \in 1..Len(s.fields) : Renamed(s.fields[j]) \notin FieldNames(s) /\ FAliases(s.fields[j]) = <<>>}}
+StepRemoveDefault(s) ==
+  IF s.k # "record" THEN {}
+  ELSE {St("RemoveDefault", FALSE,
+           WithFields(s, [s.fields EXCEPT ![i] = FldD(@.name, @.type, FAliases(@), FALSE, JNull)]))
+        : i \in {j \in 1..Len(s.fields) : FHasDef(s.fields[j])}}
+
+StepKinds == {"Promote", "PromoteStrBytes", "AnnotateLogical", "Demote", "ChangeType", "ChangeFixedSize",
+              "AddSymbol", "RemoveSymbol", "ReorderSymbols", "SetEnumDefault",
+              "AddBranch", "RemoveBranch", "ReorderBranches", "UnwrapFromUnion", "WrapInUnion",
+              "ChangeItems", "ChangeValues",
+              "AddFieldWithDefault", "AddFieldNoDefault", "RemoveField", "Reorder",
+              "RenameWithAlias", "RenameWithoutAlias", "RemoveDefault"}
+
+(* the steps of the kinds in K applicable AT node s (pool = indices of DefaultPool offered to AddFieldWithDefault) *)
+AtNode(s, inUnion, K, pool) ==
+     (IF "Promote" \in K THEN StepPromote(s) ELSE {})
+  \cup (IF "PromoteStrBytes" \in K THEN StepPromoteStrBytes(s) ELSE {})
+  \cup (IF "AnnotateLogical" \in K THEN StepAnnotate(s) ELSE {})
+  \cup (IF "Demote" \in K THEN StepDemote(s) ELSE {})
+  \cup (IF "ChangeType" \in K THEN StepChangeType(s) ELSE {})
+  \cup (IF "ChangeFixedSize" \in K THEN StepChangeFixedSize(s) ELSE {})
+  \cup (IF "AddSymbol" \in K THEN StepAddSymbol(s) ELSE {})
+  \cup (IF "RemoveSymbol" \in K THEN StepRemoveSymbol(s) ELSE {})
+  \cup (IF "ReorderSymbols" \in K THEN StepReorderSymbols(s) ELSE {})
+  \cup (IF "SetEnumDefault" \in K THEN StepSetEnumDefault(s) ELSE {})
+  \cup (IF "AddBranch" \in K THEN StepAddBranch(s) ELSE {})
+  \cup (IF "RemoveBranch" \in K THEN StepRemoveBranch(s) ELSE {})
+  \cup (IF "ReorderBranches" \in K THEN StepReorderBranches(s) ELSE {})
+  \cup (IF "UnwrapFromUnion" \in K THEN StepUnwrap(s) ELSE {})
+  \cup (IF "WrapInUnion" \in K THEN StepWrap(s, inUnion) ELSE {})
+  \cup (IF "ChangeItems" \in K THEN StepChangeItems(s) ELSE {})
+  \cup (IF "ChangeValues" \in K THEN StepChangeValues(s) ELSE {})
+  \cup (IF "AddFieldWithDefault" \in K THEN StepAddFieldWithDefault(s, pool) ELSE {})
+  \cup (IF "AddFieldNoDefault" \in K THEN StepAddFieldNoDefault(s) ELSE {})
+  \cup (IF "RemoveField" \in K THEN StepRemoveField(s) ELSE {})
+  \cup (IF "Reorder" \in K THEN StepReorder(s) ELSE {})
+  \cup (IF "RenameWithAlias" \in K THEN StepRenameWithAlias(s) ELSE {})
+  \cup (IF "RenameWithoutAlias" \in K THEN StepRenameWithoutAlias(s) ELSE {})
+  \cup (IF "RemoveDefault" \in K THEN StepRemoveDefault(s) ELSE {})
+
+(* one step of a kind in K at ANY position of s *)
+RECURSIVE Rewrites(_, _, _, _)
+Rewrites(s, inUnion, K, pool) ==
+  AtNode(s, inUnion, K, pool) \cup
+  (CASE s.k = "array" -> {[d |-> x.d, s |-> [s EXCEPT !.items = x.s]] : x \in Rewrites(s.items, FALSE, K, pool)}
+     [] s.k = "map" -> {[d |-> x.d, s |-> [s EXCEPT !.values = x.s]] : x \in Rewrites(s.values, FALSE, K, pool)}
+     [] s.k = "union" ->
+          UNION {{[d |-> x.d, s |-> [s EXCEPT !.branches[i] = x.s]]
+                    : x \in {y \in Rewrites(s.branches[i], TRUE, K, pool) : y.s.k # "union"}}
+                 : i \in 1..Len(s.branches)}
+     [] s.k = "record" ->
+          UNION {{[d |-> x.d, s |-> [s EXCEPT !.fields[i].type = x.s]] : x \in Rewrites(s.fields[i].type, FALSE, K, pool)}
+                 : i \in 1..Len(s.fields)}
+     [] OTHER -> {})
+
+(* ---- well-formedness of the result ---- *)
+RECURSIVE RefsOf(_)
+RefsOf(s) ==
+  CASE s.k = "ref" -> {s.name}
+    [] s.k = "array" -> RefsOf(s.items)
+    [] s.k = "map" -> RefsOf(s.values)
+    [] s.k = "union" -> UNION {RefsOf(s.branches[i]) : i \in 1..Len(s.branches)}
+    [] s.k = "record" -> UNION {RefsOf(s.fields[i].type) : i \in 1..Len(s.fields)}
+    [] OTHER -> {}
+RECURSIVE DefOccs(_)
+DefOccs(s) ==
+  CASE s.k = "array" -> DefOccs(s.items)
+    [] s.k = "map" -> DefOccs(s.values)
+    [] s.k = "union" -> UNION {DefOccs(s.branches[i]) : i \in 1..Len(s.branches)}
+    [] s.k = "record" -> {s} \cup UNION {DefOccs(s.fields[i].type) : i \in 1..Len(s.fields)}
+    [] s.k \in {"enum", "fixed"} -> {s}
+    [] OTHER -> {}
+UnionOk(u) == \A i, j \in 1..Len(u.branches) : i # j => UClass(u.branches[i]) # UClass(u.branches[j])
+RECURSIVE UnionsOk(_)
+UnionsOk(s) ==
+  CASE s.k = "array" -> UnionsOk(s.items)
+    [] s.k = "map" -> UnionsOk(s.values)
+    [] s.k = "union" -> UnionOk(s) /\ \A i \in 1..Len(s.branches) : s.branches[i].k # "union" /\ UnionsOk(s.branches[i])
+    [] s.k = "record" -> \A i \in 1..Len(s.fields) : UnionsOk(s.fields[i].type)
+    [] OTHER -> TRUE
+(* no dangling reference; one definition per name (copies must be identical); unions well-formed *)
+WellFormedR(s) ==
+  /\ RefsOf(s) \subseteq {d.name : d \in DefOccs(s)}
+  /\ \A a, b \in DefOccs(s) : a.name = b.name => a = b
+  /\ UnionsOk(s)
+
+SafeHistory(h) == \A i \in 1..Len(h) : h[i].safe
+
+(***************************************************************************)
 (* Literal cases from the specification text.                              *)
 (***************************************************************************)
 P(k) == [k |-> k]
